@@ -125,8 +125,10 @@ def validate_prepare_data(data, poly_trend, n_offsets):
                          "priors on constant offsets specified (i.e. "
                          "v0_offsets)")
 
+    # Note: keep the concatenation order (no time sort), so that the rows of the
+    # merged data stay aligned with ``ids`` and with the offset columns of trend_M
     all_data = RVData(t=Time(t, format='mjd', scale='tcb'),
-                      rv=rv, rv_err=err)
+                      rv=rv, rv_err=err, sort=False)
 
     trend_M = get_trend_design_matrix(all_data, ids, poly_trend)
 
